@@ -95,6 +95,10 @@ func execLine(line string) (out string) {
 		return opEcEnc(f[1:])
 	case "ecdec":
 		return opEcDec(f[1:])
+	case "ecenc2":
+		return opEcEnc2(f[1:])
+	case "khist":
+		return opKHist(f[1:])
 	case "new":
 		return opNew(f[1:])
 	case "hist":
